@@ -107,6 +107,22 @@ def SubsetOk (cfg : ICfg α) (arrivals : List α) (S : List α) : Prop :=
 instance (cfg : ICfg α) (arrivals S : List α) : Decidable (SubsetOk cfg arrivals S) := by
   unfold SubsetOk; infer_instance
 
+/-- what `Ready` / `StartParams` must answer on ANY ready list (duplicates, non-holders included), as a decidable
+    predicate on a candidate answer `(flag, S)`: the flag says "exactly t+1 ready key holders"; the subset consists of
+    min(t+1, #ready key holders) of them (as a sub-multiset), in descending key order, and nobody left out has a larger
+    key than somebody chosen -/
+def SubsetSpec (key : α → Nat) (holders : List α) (t : Nat) (ready : List α) (flag : Bool) (S : List α) : Prop :=
+  let rp := readyParticipants holders ready
+  (flag = true ↔ rp.length = t + 1) ∧
+  S.length = min (t + 1) rp.length ∧
+  (∀ p ∈ S, S.count p ≤ rp.count p) ∧
+  S.Pairwise (fun a b => key b ≤ key a) ∧
+  (∀ p ∈ rp, ∀ q ∈ S, S.count p < rp.count p → key p ≤ key q)
+
+instance (key : α → Nat) (holders : List α) (t : Nat) (ready : List α) (flag : Bool) (S : List α) :
+    Decidable (SubsetSpec key holders t ready flag S) := by
+  unfold SubsetSpec; infer_instance
+
 /-- first occurrences only -/
 def dedup : List α → List α
   | [] => []
@@ -121,14 +137,15 @@ def enoughReady (cfg : ICfg α) (arrivals : List α) : Bool :=
   decide (1 ≤ cfg.t) && decide (cfg.t ≤ (eligibleReporters cfg arrivals).length)
 
 /-- the C07 clause about the announcement as a whole, on ANY candidate outcome of the coordinator's collecting loop:
-    an announced subset satisfies `SubsetOk`; announcing nothing is only acceptable when too few eligible key holders
+    an announced subset satisfies `SubsetOk` w.r.t. the ready messages consumed up to the announcement; announcing nothing is only acceptable when too few eligible key holders
     reported ready (the attempt must start once enough did) -/
-def AnnouncedOk (cfg : ICfg α) (arrivals : List α) (out : Option (List α)) : Prop :=
+def AnnouncedOk (cfg : ICfg α) (consumed arrivals : List α) (out : Option (List α)) : Prop :=
   match out with
-  | some S => SubsetOk cfg arrivals S
+  | some S => SubsetOk cfg consumed S       -- `consumed`: the ready senders taken BEFORE the announcement
   | none => enoughReady cfg arrivals = false
 
-instance (cfg : ICfg α) (arrivals : List α) (out : Option (List α)) : Decidable (AnnouncedOk cfg arrivals out) := by
+instance (cfg : ICfg α) (consumed arrivals : List α) (out : Option (List α)) :
+    Decidable (AnnouncedOk cfg consumed arrivals out) := by
   unfold AnnouncedOk; cases out <;> infer_instance
 
 end Initiate
@@ -240,6 +257,44 @@ instance (c : α) (tr : List (Ev α)) (readies : List α) (runs : List Nat) (res
   unfold ObeysOnly; infer_instance
 
 end Wait
+
+/-! ### the coordinator's side with fail messages: collecting loop next to its own fail watcher -/
+
+section Coord
+variable {α : Type} [DecidableEq α]
+
+/-- what reaches a coordinating relayer: a ready message (read by `initiate`) or a fail message (read by the
+    `watchExecution` that runs next to it) -/
+inductive CoEv (α : Type) where
+  | ready (p : α)
+  | fail (f : α)
+deriving DecidableEq, Repr
+
+def readiesCo : List (CoEv α) → List α
+  | [] => []
+  | .ready p :: es => p :: readiesCo es
+  | .fail _ :: es => readiesCo es
+
+/-- is some fail message of the trace accepted by a watcher that was given coordinator `cf` -/
+def abortedBy (cf : Option α) (es : List (CoEv α)) : Bool :=
+  es.any fun e => match e with | .fail f => failFrom cf f | _ => false
+
+/-- `initiate` + `watchExecution(…, cf)`: `cf` is the relayer itself in the first attempt (`Execute` hands the elected
+    coordinator to the watcher) and the empty id in a retried attempt. Result: the announcement (ready messages consumed,
+    subset) if one is made before an accepted fail message, and whether the attempt was aborted by a fail message. -/
+def coordFrom (key : α → Nat) (cfg : ICfg α) (cf : Option α) :
+    List α → List (CoEv α) → Nat → Option (Nat × List α) × Bool
+  | _, [], _ => (none, false)
+  | rs, .fail f :: es, n => if failFrom cf f then (none, true) else coordFrom key cfg cf rs es n
+  | rs, .ready p :: es, n =>
+    let rs' := addReady cfg rs p
+    if isReady cfg rs' then (some (n + 1, startParams key cfg rs'), abortedBy cf es)
+    else coordFrom key cfg cf rs' es (n + 1)
+
+def runCoord (key : α → Nat) (cfg : ICfg α) (cf : Option α) (tr : List (CoEv α)) : Option (Nat × List α) × Bool :=
+  coordFrom key cfg cf [cfg.self] tr 0
+
+end Coord
 
 /-! ### the concrete election key -/
 
